@@ -104,6 +104,60 @@ func replayBehMain(args []string) {
 			case "Round":
 				e = Ev{"op": "Round", "wm": true, "m": int(s["m"].(float64)), "dp": int(s["dp"].(float64))}
 				e.setDec("x", reg("a", s))
+			case "Ceil", "Floor":
+				e = Ev{"op": op, "dp": int(s["dp"].(float64))}
+				e.setDec("x", reg("a", s))
+			case "Cmp":
+				e = Ev{"op": "Cmp"}
+				e.setDec("x", reg("a", s))
+				e.setDec("y", reg("b", s))
+			case "Pow":
+				e = Ev{"op": "Pow", "wm": true, "m": int(s["m"].(float64))}
+				e.setDec("x", reg("a", s))
+				e.setDec("y", reg("b", s))
+				if wit := lnWitness(reg("a", s)); wit != nil {
+					e["w"] = wit
+				}
+			case "Frexp":
+				e = Ev{"op": "Frexp"}
+				e.setDec("x", reg("a", s))
+			case "Binary", "Json", "Sql", "Int":
+				// two calls: the encoding / conversion, then the way back
+				var e1 Ev
+				switch op {
+				case "Binary":
+					e1 = Ev{"op": "MarshalBinary"}
+				case "Json":
+					e1 = Ev{"op": "MarshalJSON"}
+				case "Sql":
+					e1 = Ev{"op": "Decompose", "bufcap": -1}
+				default:
+					e1 = Ev{"op": "ToInt", "ty": s["ty"]}
+				}
+				e1.setDec("x", reg("a", s))
+				e1["beh"] = nb
+				e1["step"] = si + 1
+				exec(e1)
+				w.put(e1)
+				switch op {
+				case "Binary":
+					e = Ev{"op": "UnmarshalBinary", "bs": e1["bs"]}
+				case "Json":
+					if e1["mjerr"] != "none" {
+						continue // no JSON form (the behaviour expects the register to stay as it is)
+					}
+					e = Ev{"op": "UnmarshalJSON", "s": e1["mj"]}
+				case "Sql":
+					e = Ev{"op": "Compose", "form": e1["form"], "neg": e1["neg"], "sig": e1["sig"], "exp": e1["exp"]}
+				default:
+					if e1.has("panic") {
+						continue // NaN: nothing to store
+					}
+					e = Ev{"op": "FromInt64", "ty": s["ty"], "v": e1["n"]}
+				}
+				if op != "Int" {
+					e.setDec("prev", reg("d", s))
+				}
 			default:
 				fmt.Fprintln(os.Stderr, "unknown behaviour op", op)
 				os.Exit(2)
@@ -113,6 +167,20 @@ func replayBehMain(args []string) {
 			exec(e)
 			switch op {
 			case "SetMode":
+			case "Cmp":
+				want := s["cmp"].([]any)
+				e["bok"] = e["lt"] == want[0].(bool) && e["eq"] == want[1].(bool) && e["gt"] == want[2].(bool)
+			case "Frexp": // the register receives Ldexp(Frexp(x)), which the Frexp event records as back
+				r := e.dec("back")
+				regs[int(s["d"].(float64))] = r
+				e["bok"] = matchesExpected(r, s["exp"].(map[string]any))
+			case "Pow":
+				if skip, _ := s["skip"].(bool); skip {
+					break // no exactly specified result: the call is validated as a trace event, the register stays
+				}
+				r := e.dec("r")
+				regs[int(s["d"].(float64))] = r
+				e["bok"] = matchesExpected(r, s["exp"].(map[string]any))
 			case "Text": // the register receives Parse(String(x)), which the String event records as bp
 				r := e.dec("bp")
 				regs[int(s["d"].(float64))] = r
